@@ -388,7 +388,30 @@ VERUS_UNITS["C03"] = _zdd_unit("C03",
     "cap is NOT detected by this check.", level="other")
 
 
-VERUS_UNITS["C31"] = dict(prop="C31", template="contracts/verus/c31.rs.tmpl", gen_name="c31", ledger="obligations/c31.json", level="proof",
+def c31_witness(scratch):
+    """bounded stand-in: the real validate_path on a real directory tree with symlinks (witness/c31); attaches inputs, proves nothing"""
+    import shutil
+    wdir = os.path.join(scratch, "witness-c31")
+    shutil.rmtree(wdir, ignore_errors=True)
+    shutil.copytree(os.path.join(VERIF, "witness/c31"), wdir)
+    mp = os.path.join(wdir, "src/main.rs")
+    src = open(mp).read().replace("@REPO@", vpv.REPO.rstrip("/"))
+    open(mp, "w").write(src)
+    tgt = os.path.join(scratch, "wit-target")
+    rc, out = vpv.sh(["cargo", "build", "--offline", "--release"], cwd=wdir, env={"CARGO_TARGET_DIR": tgt}, timeout=900)
+    if rc != 0:
+        return dict(found=False, note="witness finder did not build: " + out[-400:])
+    rc, out = vpv.sh([os.path.join(tgt, "release/vpv-c31-witness"), scratch], timeout=600)
+    m = re.search(r"^WITNESS (.*)$", out, re.M)
+    cmd = "copy /verif/witness/c31, replace @REPO@ by the repository path in src/main.rs, cargo run --release"
+    if m:
+        return dict(found=True, input=m.group(1), cmd=cmd)
+    if rc != 0 and "NO-WITNESS" not in out:
+        return dict(found=True, input="real code panicked: " + out[-600:], cmd=cmd)
+    return dict(found=False, note=out.strip()[-300:])
+
+
+VERUS_UNITS["C31"] = dict(prop="C31", witness=c31_witness, template="contracts/verus/c31.rs.tmpl", gen_name="c31", ledger="obligations/c31.json", level="proof",
     explanation=("validate_path (crates/varpulis-cli/src/security.rs) is extracted VERBATIM and verified by Verus against: Ok(p) ==> the work directory resolves, "
                  "the requested path (the request if absolute, else workdir/request) resolves, p IS that resolved path, and std reports p as lying under the RESOLVED work "
                  "directory — for every input string and every behaviour of the file system that canonicalize/starts_with can report (they are uninterpreted). "
